@@ -800,6 +800,11 @@ func (wk *worker) step() {
 		if err == nil && c != nil && c.Addr() != a {
 			oc = "UNEXPECTED"
 		}
+		if err == nil && c != nil {
+			// GetConnection is documented to return a copy: its caller may read the copy's fields
+			// at any time without synchronising with the pool
+			readReturnedConnection(c)
+		}
 		wk.rec("GetConnection", t, oc, errText(err))
 	case k < 68:
 		// a plain bool: true also once the pool has shut down
@@ -1139,3 +1144,17 @@ func collectHang(rs *roundState) *Hang {
 }
 
 var _ = io.EOF
+
+// readReturnedConnection reads the plain fields of a connection value handed out by the pool,
+// as any caller does. Under the race detector a report naming this function means the value
+// aliases state the pool keeps writing (cmd/c32 attributes such a report to the pool).
+//
+//go:noinline
+func readReturnedConnection(c *gnet.Connection) (x int64) {
+	x = c.LastSent.UnixNano() ^ c.LastReceived.UnixNano()
+	x += int64(c.ID)
+	if c.Solicited {
+		x++
+	}
+	return x
+}
